@@ -85,7 +85,8 @@ func doRequest(request *http.Request, executor failsafe.Executor[*http.Response]
 		}
 
 		ctx, cancel := util.MergeContexts(request.Context(), exec.Context())
-		req := request.WithContext(ctx)
+		// Each attempt gets its own copy of the request, including its headers, since clients may add to them, such as cookies
+		req := request.Clone(ctx)
 
 		// Get new body for each attempt
 		if bodyFunc != nil {
